@@ -147,6 +147,48 @@ Example c09_example_edge :
   nth 1024 os Blocked = ErrTimeUnitOverflow.
 Proof. vm_compute. repeat split; reflexivity. Qed.
 
+(* The complete input/output relation of one call of Next, for EVERY state and EVERY clock (no
+   hypothesis): which error for which reading, what the state is afterwards — in particular
+   what does NOT change: a refused reading (beyond the range, fourth rollback) leaves the state
+   untouched, the final guard leaves lastID and the machine field untouched —, which time unit,
+   sequence and rollback count an id is built from, and which readings the call consumed: one,
+   or — after sequence exhaustion — all up to the first one LATER than the exhausted unit
+   (earlier readings inside the wait are skipped and count no rollback). *)
+Theorem c09_next_spec : forall st t rest,
+  let '(o, st', rest') := next (t :: rest) st in
+  match o with
+  | Ok id =>
+      id = compose (bc st') (lastTU st') (machine st) (seq st') /\
+      lastID st < id /\ lastID st' = id /\ machine st' = machine st /\ t <= x_uuid_MaxTimeUnits /\
+      bc st' = (if t <? lastTU st then bc st + 1 else bc st) /\
+      ((t <> lastTU st /\ lastTU st' = t /\ seq st' = 0 /\ rest' = rest) \/
+       (t = lastTU st /\ seq st + 1 <= x_uuid_MaxSeqID /\ lastTU st' = t /\ seq st' = seq st + 1 /\ rest' = rest) \/
+       ((t = lastTU st /\ x_uuid_MaxSeqID < seq st + 1) /\ wait t rest = Some (lastTU st', rest') /\
+        lastTU st' <= x_uuid_MaxTimeUnits /\ seq st' = 0))
+  | ErrTimeUnitOverflow =>
+      (x_uuid_MaxTimeUnits < t /\ st' = st /\ rest' = rest) \/
+      (t <= x_uuid_MaxTimeUnits /\ (t = lastTU st /\ x_uuid_MaxSeqID < seq st + 1) /\
+       exists now, wait t rest = Some (now, rest') /\ x_uuid_MaxTimeUnits < now /\
+       st' = mkSf (machine st) 0 (lastTU st) (lastID st) (bc st))
+  | ErrClockGoneBackwards =>
+      t <= x_uuid_MaxTimeUnits /\ t < lastTU st /\ 3 <= bc st /\ st' = st /\ rest' = rest
+  | ErrUUIDIntOverflow =>
+      t <= x_uuid_MaxTimeUnits /\ lastID st' = lastID st /\ machine st' = machine st /\
+      compose (bc st') (lastTU st') (machine st) (seq st') <= lastID st
+  | Blocked => t <= x_uuid_MaxTimeUnits /\ (t = lastTU st /\ x_uuid_MaxSeqID < seq st + 1) /\ wait t rest = None
+  end.
+Proof. exact next_spec. Qed.
+Print Assumptions c09_next_spec.
+
+(* the clock steps back while a caller waits after sequence exhaustion: the wait goes on to a
+   later unit, no rollback is marked *)
+Example c09_example_backward_inside_wait :
+  let clk := (repeat 5000 1024 ++ [4999; 4998; 5000; 5002; 5002])%list in
+  let os := outcomes (run_all clk (new_sf 7 5000)) in
+  (length os = 1025%nat) /\ (nth 1023 os Blocked = Ok (5002 * 2 ^ 24 + 7 * 2 ^ 10 + 0)) /\
+  (nth 1024 os Blocked = Ok (5002 * 2 ^ 24 + 7 * 2 ^ 10 + 1)).
+Proof. vm_compute. repeat split; reflexivity. Qed.
+
 (* ------------------------------------------------------------------------------------------
    Tie to the source (C09/Source.v): Snowflake.Next itself - every statement in front of the
    final `return uuid, nil` - is regenerated from snowflake.go by tools/gofunc on every run
